@@ -60,8 +60,8 @@ pub fn spec(id: &str) -> Option<PropSpec> {
         },
         "C16" => PropSpec {
             id: "C16",
-            batches: vec![b("lru", 60_000, 3_000_000, false), b("bdd", 30_000, 1_500_000, true), b("sdd", 30_000, 1_500_000, true)],
-            rule: "lru world: one case = an insert/get history on the real util::lru::Lru with adversarial colliding hashes, capacities 2^0..2^5 and forced growth; bdd world: the same history is executed on the builder under test (lossy cache, tiny capacities, forgetting/growth faults) and on a fault-free twin that caches every application; every result must have the same canonical structural signature. Distinct = distinct event-log hash. Non-trivial: lru = at least one hit and two keys; bdd = non-constant result and a fault/knob effect.",
+            batches: vec![b("lru", 60_000, 3_000_000, false), b("bdd", 30_000, 1_500_000, true), b("sdd", 30_000, 1_500_000, true), b("semhash", 8_000, 400_000, true)],
+            rule: "lru world: one case = an insert/get history on the real util::lru::Lru with adversarial colliding hashes, capacities 2^0..2^5 and forced growth; bdd world: the same history is executed on the builder under test (lossy cache, tiny capacities, forgetting/growth faults) and on a fault-free twin that caches every application; every result must have the same canonical structural signature; sdd world: same with apply-/ite-cache forgetting against a fault-free twin (compressed and uncompressed); semhash world: the hash-identified SDD builder with its product-hash apply cache forgetting against a fault-free twin (same function). Distinct = distinct event-log hash. Non-trivial: lru = at least one hit and two keys; bdd = non-constant result and a fault/knob effect.",
             states_measure: "distinct truth tables produced (bdd) / distinct hit counts (lru)",
             probe_prefixes: &["Lru", "BddIteCacheHit", "Ite"],
             assumptions: &[
